@@ -34,6 +34,8 @@ inductive Ev where
   | awaitMain (id : Nat) | resumeMain (id : Nat)
   | awaitTask (cur id : Nat) | resumeTask (cur id : Nat)
   | yieldStmt (cur : Nat)
+  | skip (id w : Nat)                      -- popped, still blocked on unfinished w, pushed back without running
+  | giveUp (target : Nat)                  -- (not traced by the hook) a wait loop ended because the queue ran empty
   | out (ctx : Nat) (tag : Nat)            -- println of a tag; ctx 0 = main, otherwise the task id
   | got (ctx : Nat) (v : Int)              -- the awaited value, printed by the awaiting code
   deriving Repr, DecidableEq, Inhabited
@@ -46,6 +48,8 @@ structure Task where
   result : Int
   slots : List (Nat × Nat)                 -- future variable ↦ task id
   vals : List (Nat × Int)                  -- awaited values
+  waiting : Bool                           -- set by `await` inside the task, cleared at its next pop once the target finished
+  waitingFor : Nat
   deriving Repr, Inhabited
 
 inductive Frame where
@@ -78,7 +82,7 @@ def lookupVal (s : List (Nat × Int)) (k : Nat) : Int :=
   | [] => 0
   | (a, b) :: r => if a = k then b else lookupVal r k
 
-def getTask (c : Cfg) (id : Nat) : Task := c.tasks.getD (id - 1) ⟨0, 0, 0, true, 0, [], []⟩
+def getTask (c : Cfg) (id : Nat) : Task := c.tasks.getD (id - 1) ⟨0, 0, 0, true, 0, [], [], false, 0⟩
 
 def setTask (c : Cfg) (id : Nat) (t : Task) : Cfg := { c with tasks := c.tasks.set (id - 1) t }
 
@@ -103,7 +107,7 @@ def finishStmt (p : Prog) (c : Cfg) (id : Nat) : Cfg :=
   else
     popFrame (emit (setTask c id { t' with finished := true }) (.done id))
 
-def newTask (f : Nat) : Task := ⟨f, 0, 0, false, 0, [], []⟩
+def newTask (f : Nat) : Task := ⟨f, 0, 0, false, 0, [], [], false, 0⟩
 
 /-- one transition; `none` = the program has ended (main returned) -/
 def stepCfg (p : Prog) (c : Cfg) : Option Cfg :=
@@ -117,7 +121,13 @@ def stepCfg (p : Prog) (c : Cfg) : Option Cfg :=
       let c := { c with queue := q }
       let t := getTask c h
       if t.finished then some (popFrame c)
-      else if (body p t).length ≤ t.idx then
+      else if t.waiting && !(getTask c t.waitingFor).finished then
+        -- still blocked: pushed back without running
+        some (popFrame (emit { c with queue := q ++ [h] } (.skip h t.waitingFor)))
+      else
+      let t := { t with waiting := false }
+      let c := setTask c h t
+      if (body p t).length ≤ t.idx then
         -- index already past the end (a body that ends in `yield`): an empty step that finishes the task
         some (popFrame (emits (setTask c h { t with finished := true }) [.step h, .done h]))
       else some (setTop (emit c (.step h)) (.task h))
@@ -141,6 +151,7 @@ def stepCfg (p : Prog) (c : Cfg) : Option Cfg :=
       some (finishStmt p (emit (setTask c id { t with slots := (slot, nid) :: t.slots }) (.spawn nid f)) id)
     | some (.await slot) =>
       let target := lookupSlot t.slots slot
+      let c := setTask c id { t with waiting := true, waitingFor := target }
       some (pushFrame (setTop (emit c (.awaitTask id target)) (.taskAwaitRet id target)) (.wait target))
     | some (.show slot) => some (finishStmt p (emit c (.got id (lookupVal t.vals slot))) id)
     | some (.ret v) =>
@@ -152,7 +163,7 @@ def stepCfg (p : Prog) (c : Cfg) : Option Cfg :=
     some (finishStmt p (emit c (.resumeTask id target)) id)
   | .wait target :: _ =>
     if (getTask c target).finished then some (popFrame c)
-    else if c.queue.isEmpty then some (popFrame c)
+    else if c.queue.isEmpty then some (popFrame (emit c (.giveUp target)))
     else some (pushFrame c .pop1)
   | .main pc iter :: _ =>
     match p.main[pc]? with
